@@ -184,3 +184,30 @@ Lemma inert_main_spawnc cfg k : inert (main_spawnc cfg k).
 Proof. unfold main_spawnc. destruct (Nat.ltb k (length (clients cfg))); [repeat split | apply inert_main_ops]. Qed.
 Lemma inert_main_ctor cfg k : inert (main_ctor cfg k).
 Proof. unfold main_ctor. destruct (Nat.ltb k (nworkers cfg)); [repeat split | apply inert_main_spawnc]. Qed.
+
+(** * Extra notifications ([xstep]) touch only the wait sets *)
+Definition same_core (s s' : shared) : Prop :=
+  queue s' = queue s /\ busy s' = busy s /\ idle s' = idle s /\ done s' = done s /\ term s' = term s /\ owner s' = owner s /\
+  npushed s' = npushed s /\ started s' = started s /\ ended s' = ended s /\ endedj s' = endedj s.
+
+Lemma xstep_inv s t e s' :
+  xstep s (t, e) = Some s' ->
+  thr s' = thr s /\ can_xnotify (get (thr s) t) = true /\ same_core (shr s) (shr s') /\
+  (shr s' = shr s \/
+   (exists c, ws c (shr s') = [] /\ (forall c', c' <> c -> ws c' (shr s') = ws c' (shr s)) /\ woken (shr s') = ws c (shr s) ++ woken (shr s)) \/
+   (exists c u, In u (ws c (shr s)) /\ ws c (shr s') = rem u (ws c (shr s)) /\ (forall c', c' <> c -> ws c' (shr s') = ws c' (shr s)) /\
+                woken (shr s') = u :: woken (shr s))).
+Proof.
+  unfold xstep. destruct (can_xnotify (get (thr s) t)) eqn:C; [|discriminate].
+  destruct e; cbn [xnotify]; try discriminate.
+  - (* notify_one *)
+    unfold do_n1. destruct w as [u|].
+    + destruct (mem u (ws c (shr s))) eqn:M; [|discriminate]. intros H. inversion H; subst; clear H. cbn [shr thr].
+      repeat split; try reflexivity. right; right. exists c, u. apply mem_In in M.
+      destruct c; cbn; repeat split; auto; intros [] X; try congruence; reflexivity.
+    + destruct (ws c (shr s)) eqn:E; [|discriminate]. intros H. inversion H; subst; clear H. cbn [shr thr].
+      repeat split; auto.
+  - (* notify_all *)
+    intros H. inversion H; subst; clear H. cbn [shr thr]. repeat split; try reflexivity.
+    right; left. exists c. destruct c; cbn; repeat split; auto; intros [] X; try congruence; reflexivity.
+Qed.
